@@ -479,7 +479,7 @@ func serverForwardResponses(
 			//	The server SHOULD send a "close" connection option in its final response on that connection.
 			//
 			// It's not a "MUST", so we check both.
-			if req.Close || resp.Close {
+			if resp.StatusCode >= http.StatusOK && (req.Close || resp.Close) {
 				return errPayloadAfterFinalResponse
 			}
 
